@@ -453,7 +453,7 @@ def _shapes(tier: str, seed: int) -> List[dict]:
     exprs += [e for e in unary_forms if e[0] not in ("BinOp", "Compare", "BoolOp") or e[1] == "In"]
     exprs += [e for e in gen.expr_shapes(1, small, named=True) if e[0] in ("BinOp", "Compare", "BoolOp")]
     deep = list(gen.expr_shapes(2, [idns, ("Str", NEW), gen.path_shape(1)], named=True, sym_ops=False))
-    exprs += gen.sample(deep, 40 if tier == "quick" else 500, seed)
+    exprs += gen.sample(deep, 40 if tier == "quick" else 120, seed)
     # multi-argument calls / named params / lambda with None body explicitly
     exprs += [("Compare", "In", ("Id", NEW, ()), ("List", [("Int", "1"), ("Null",), ("Str", NEW), ("Null",)])),
               ("Compare", "In", ("Null",), ("List", [("Null",)])),
